@@ -14,4 +14,6 @@ AboveIterates == LET x == LsLeast(sr, A, N, b) IN \A k \in 0..(3 * N + 3) : \A i
 \* and it is least among the solutions over the carrier points (checked by brute force)
 LeastAmongSolutions == LET x == LsLeast(sr, A, N, b) IN
    \A y \in [1..N -> Pts(sr) \cup {INF}] : LsStep(sr, A, N, b, y) = y => \A i \in 1..N : x[i] <= y[i]
+\* the structural computation used on nat agrees with plain iteration + divergence closure
+StructuralAgreesWithIteration == LsLeast(sr, A, N, b) = LsLeastByIteration(sr, A, N, b)
 =============================================================================
